@@ -689,12 +689,31 @@ func TestCallerBuffersUntouched(t *testing.T) {
 			key := gen.Key(t, "key")
 			f := ws.NewBinaryFrame(p)
 			var out ws.Frame
+			alreadyMasked := false
 			switch api {
-			case "MaskFrame":
-				out = ws.MaskFrame(f)
-				key = out.Header.Mask
-			case "MaskFrameWith":
-				out = ws.MaskFrameWith(f, key)
+			case "MaskFrame", "MaskFrameWith":
+				// a relay re-masking a frame it read from a client: the input header already says "masked".
+				// Whatever the helper makes of that, it is a COPYING helper: the caller's payload stays as it is.
+				if alreadyMasked = rapid.IntRange(0, 2).Draw(t, "inputMasked") == 0; alreadyMasked {
+					f.Header.Masked, f.Header.Mask = true, gen.Key(t, "oldkey")
+				}
+				if api == "MaskFrame" {
+					out = ws.MaskFrame(f)
+					key = out.Header.Mask
+				} else {
+					out = ws.MaskFrameWith(f, key)
+				}
+				if alreadyMasked {
+					if !bytes.Equal(p, orig) {
+						t.Fatalf("%s on a frame whose header already says masked modified the caller's payload: %x… -> %x…", api, head(orig), head(p))
+					}
+					res := append([]byte(nil), out.Payload...)
+					scribble(p)
+					if !bytes.Equal(out.Payload, res) {
+						t.Fatalf("%s result aliases the caller's payload (already-masked input)", api)
+					}
+					return
+				}
 			default:
 				// the header may or may not say "masked": the copying helper copies either way
 				f.Header.Masked, f.Header.Mask = rapid.Bool().Draw(t, "inputMasked"), key
